@@ -87,6 +87,13 @@ def auto_piece_length(run):
 def run(tier, seed, replay=None):
     run = Run("C15", tier, seed, RULE)
     drv = Driver()
+
+    def still_fails(c):
+        probe = Run("C15", tier, seed, RULE)
+        files = [(rel, cr.blob_from_token(t)) for rel, t in c["files"]]
+        run_case(probe, Driver(), files, c["pl"], c["single"], c.get("via_cli", False), "shrink")
+        return any(f.kind == "impl-vs-spec" for f in probe.failures)
+    run.shrinker = still_fails
     if replay:
         c = replay["case"]
         files = [(rel, cr.blob_from_token(t)) for rel, t in c["files"]]
